@@ -31,6 +31,25 @@ def _tol(dt):
     return RTOL.get(dt, 1e-12)
 
 
+# offset scales (degC, degF): a reading y means the absolute value (y + off) * scale.  A float reading carries an absolute
+# value only to eps * max(|y + off|, |off|): number claims are made where |absolute value / scale| >= |off| / OFF_R, and
+# an object that went through a narrow float type on an offset scale has OFF_TOL x the precision of that type
+OFF_R = {8: 1024.0, 4: 4.0, 2: 4.0}
+OFF_TOL = 4.0
+
+
+def _ascii(s):
+    return str(s).encode("ascii", "backslashreplace").decode("ascii")
+
+
+def _carried(val_over_scale, off, dt):
+    """can a reading of float type dt on a scale with this offset carry the absolute value to the type's precision?"""
+    if off == 0:
+        return True
+    nb = 8 if dt in ("f8", "c16") else 4 if dt in ("f4", "c8") else 2
+    return bool(abs(val_over_scale) * OFF_R[nb] >= abs(off))
+
+
 def _representable(val, dt):
     """is |val| inside the normal range of the float type dt (with a margin of 4 at both ends)?"""
     if dt not in FINFO:
@@ -78,11 +97,16 @@ def setup(common=None):
                           ("code_temperature", 1.0e4, D0.temperature)):
         creg.add(sym, val, dim)
     units = []
+    # the specification's exact offsets (reading y = absolute / scale - off); every other spelling has none
+    offs = {o["s"]: Fraction(o["off"][0], o["off"][1]) for o in tb.get("offsets", [])}
     for u in tb["units"]:
         U = unyt.Unit(u["s"], registry=creg) if u["c"] == "code" else unyt.Unit(u["s"])
-        if float(U.base_offset) != 0.0:
-            raise RuntimeError("offset unit in the C09 unit table: " + u["s"])
-        units.append({"s": u["s"], "U": U, "scale": float(U.base_value), "d": u["d"], "c": u["c"]})
+        if (u["c"] == "offset") != (u["s"] in offs):
+            raise RuntimeError("C09 unit table: class offset and the table of offsets disagree: " + u["s"])
+        if u["c"] != "offset" and float(U.base_offset) != 0.0:
+            raise RuntimeError("offset unit in the C09 unit table outside class offset: " + u["s"])
+        units.append({"s": u["s"], "U": U, "scale": float(U.base_value), "d": u["d"], "c": u["c"],
+                      "off": mpmath.mpf(offs[u["s"]].numerator) / offs[u["s"]].denominator if u["s"] in offs else mpmath.mpf(0)})
     _U.update(mp=mpmath, np=np, unyt=unyt, gens=gens, units=units, dimcheck=False, creg=creg, dreg=unyt.unit_registry.default_unit_registry)
     # the declared dimension of every spelling is what the library resolves (else the table, not the library, is wrong)
     from unyt import dimensions as D
@@ -154,10 +178,10 @@ def _dt(dtype):
 def _digest(x, parent):
     np = _U["np"]
     h = hashlib.sha1(np.ascontiguousarray(np.asarray(x)).tobytes()).hexdigest()[:16]
-    out = {"b": h, "u": str(x.units), "dt": str(x.dtype), "sh": str(x.shape), "name": str(getattr(x, "name", None))}
+    out = {"b": h, "u": _ascii(x.units), "dt": str(x.dtype), "sh": str(x.shape), "name": str(getattr(x, "name", None))}
     if parent is not None:
         out["pb"] = hashlib.sha1(np.asarray(parent).tobytes()).hexdigest()[:16]
-        out["pu"] = str(parent.units)
+        out["pu"] = _ascii(parent.units)
     else:
         out["pb"] = ""
         out["pu"] = ""
@@ -180,7 +204,13 @@ def _make(init):
     registry = _U["creg"] if init.get("reg") == "custom" else None
     scale_in = float(_unit_in(u["s"], registry).base_value) if registry is not None else u["scale"]
     u = dict(u, scale=scale_in)
-    vals = [float(sv_value(sv) / _U["mp"].mpf(u["scale"])) for sv in init["v"]]
+    vals = [float(sv_value(sv) / _U["mp"].mpf(u["scale"]) - u["off"]) for sv in init["v"]]
+    if u["off"] != 0:
+        # the case generator only writes numbers on an offset scale that the reading carries to double precision
+        for y, sv in zip(vals, init["v"]):
+            back = (_U["mp"].mpf(y) + u["off"]) * _U["mp"].mpf(u["scale"])
+            if init["dt"] != "f8" or abs(back - sv_value(sv)) > 1e-13 * abs(sv_value(sv)):
+                raise RuntimeError(f"case value not carried by a reading in {u['s']}: {y}")
     dt = init["dt"]
     if dt[0] in "iu":
         iv = [int(round(v)) for v in vals]
@@ -218,11 +248,12 @@ def _target(treg, st):
     history's object was created in; results stay in it)"""
     s = _U["units"][st["tu"] - 1]["s"]
     tf = st.get("tf", "str")
+    off = _U["units"][st["tu"] - 1]["off"]
     if tf == "udef":
         U = _unit_in(s, _U["dreg"])
-        return U, U
+        return U, U, off
     U = _unit_in(s, treg)
-    return (s if tf == "str" else U), U
+    return (s if tf == "str" else U), U, off
 
 
 def _call(x, st, tus):
@@ -263,7 +294,7 @@ def observe(case):
     with warnings.catch_warnings(), np.errstate(all="ignore"):
         warnings.simplefilter("ignore")
         for st in case["h"]:
-            tgt, tU = _target(treg, st)
+            tgt, tU, toff = _target(treg, st)
             tu = {"U": tU, "scale": float(tU.base_value)}
             inplace = st["en"] in ("convert_to_units", "convert_to_equivalent")
             pre = _digest(x, parent)
@@ -282,32 +313,41 @@ def observe(case):
                 obs["frame"] = bool(np.all(outside == PAD)) and bool(np.shares_memory(x, parent))
             if obs["k"] == "ok":
                 res = x if inplace else ret
+                # the absolute (SI) number of a reading y: (y + off) * scale - scale: the result's own unit (to_value: the
+                # requested unit); off: the specification's exact offset of the requested scale, applied when the result
+                # is on an offset scale (a result in another unit than requested fails `Unit` whatever its numbers)
+                off = 0.0
                 if st["en"] == "to_value":
                     scale = tu["scale"]
+                    off = toff
                     obs["cls"] = "float" if type(res) is float else "complex" if type(res) is complex else type(res).__name__
                     arr = np.atleast_1d(np.asarray(res))
                 else:
                     scale = float(res.units.base_value)
-                    obs["ueq"] = bool(res.units == tu["U"]) and float(res.units.base_offset) == 0.0
-                    obs["unit"] = str(res.units)
+                    obs["ueq"] = bool(res.units == tu["U"]) and float(res.units.base_offset) == float(tu["U"].base_offset)
+                    obs["unit"] = _ascii(res.units)
+                    if float(res.units.base_offset) != 0.0:
+                        off = toff
                     obs["cls"] = type(res).__name__
                     arr = np.atleast_1d(np.asarray(res))
                 obs["dt"] = _dt(arr.dtype)
-                tol = max(tol, _tol(obs["dt"]))
+                tol = max(tol, _tol(obs["dt"]) * (OFF_TOL if off != 0 and obs["dt"] not in ("f8", "c16") else 1.0))
                 rtol = tol
+                moff = _U["mp"].mpf(off)
                 first_e = st["exp"]["v"] if st["exp"]["k"] == "ok" else []
                 first_c = st["cand"] or []
                 for i, y in enumerate(arr.ravel().tolist()):
                     first = [s[i] for s in (first_e, first_c) if i < len(s)]
                     if isinstance(y, complex):
                         # the cases hold real numbers: an imaginary part beyond rounding makes the number foreign
-                        yy = y.real * scale if abs(y.imag) <= rtol * abs(y.real) else float("nan")
+                        yy = float((_U["mp"].mpf(y.real) + moff) * scale) if abs(y.imag) <= rtol * max(abs(y.real), abs(float(off))) else float("nan")
                     else:
-                        yy = float(y) * scale
+                        yy = float((_U["mp"].mpf(float(y)) + moff) * scale) if off != 0 else float(y) * scale
                     obs["v"].append(snap.enc(yy, first, rtol))
                     # does the formula's number, in the result's unit, lie in the normal range of the result's float type?
                     ref = first_c[i] if i < len(first_c) else first_e[i] if i < len(first_e) else None
-                    obs["rep"].append(True if ref is None else _representable(float(sv_value(ref)) / scale, obs["dt"]))
+                    obs["rep"].append(True if ref is None else (_representable(float(sv_value(ref) / scale - moff), obs["dt"])
+                                                                and _carried(float(sv_value(ref)) / scale, float(off), obs["dt"])))
                     obs["approx"].append(repr(y))
                 if st["fo"] and st["en"] != "to_value" and not inplace:
                     x, parent = ret, None
